@@ -21,32 +21,50 @@ THEOREMS = [
     (M, "C11.same_wildcards_witness", "SameWildcards is forced: a wildcard only the other pattern has makes sub raise KeyError"),
     (M, "C11.two_starstar_witness", "WellSeparated is forced: with two `**` the way back gives a different path"),
     ("CLModel.Props.C12", "C12.match_returns_bound_values", "after a successful match, a bound top-level variable's entry is the expansion of its value (used for 'substituted consistently')"),
+    (M, "C11.match_sound_general_partial", "match_sound for EVERY matched path with nested environment values, repeated variables and merely fully bound top-level variables: m.sub(m, path) = path; remaining: no top-level {android_locale}, env keys distinct and not named s<n>, no variable repeated inside one value"),
+    (M, "C11.constructed_matcher_repN", "the order hypothesis (every repeated variable after its first occurrence) holds for every Matcher(pattern, env, root): proved about PatternParser"),
+    (M, "C11.match_sound_android_witness", "{android_locale} with an unbound locale is forced out of match_sound: 'en-US/x' matched by '{android_locale}/x' maps to 'en-rUS/x'"),
+    (M, "C11.sub_roundtrip_backref_partial", "the two-matcher round trip with REPEATED variables on either side ({l}a/{l}b/*.ftl, l10n/{locale}/x/{locale}.ftl): a.sub(b, pa) = pb, b.sub(a, pb) = pa, both matched; the earlier class is included"),
+    (M, "C11.pattern_eq_iff", "Pattern.__eq__ (with the node __eq__s) is structural equality of nodes, root and prefix length: an equivalence (the test ProjectFiles folds duplicate rules with)"),
+    (M, "C11.matcher_eq_refl_symm", "Matcher.__eq__ is reflexive and symmetric (environments are dicts), != is its negation"),
+    (M, "C11.matcher_eq_not_transitive_witness", "Matcher.__eq__ is NOT transitive: a matcher without the variable equals two matchers that bind it differently"),
+    (M, "C11.matcher_eq_same_behaviour", "equal matchers that bind the same variable names (in any order) match the same paths with the same captures, have the same prefix, str, compiled regex and sub"),
+    (M, "C11.matcher_eq_limits_witness", "what == does not imply (one side binds a variable the other leaves open: equal, match differently) and what != does not imply (differ in an unused variable: unequal, match alike)"),
+    (M, "C11.concat_joins_paths", "concat behaves as if the resulting paths were joined: str(a.concat(other)) = str(a) + expansion of other in the merged environment when a is fully bound; without a wildcard in a the prefix is str(a) + other's prefix"),
+    (M, "C11.concat_witness", "concat on a real pair; two parts that both define group s1 cannot be compiled (concat does not renumber wildcards)"),
+    (M, "C11.cache_never_stale", "_cached_re as explicit state: match/sub on the object = the stateless model and keep the cache equal to the regex of the CURRENT pattern/env/root; with_env, Matcher(m, env, root) and concat return objects with an EMPTY cache"),
+    (M, "C11.cache_initially_empty", "a new matcher object has nothing cached"),
 ]
 PARTIAL = [
-    "sub_roundtrip_star_partial (a.sub(b, .) then b.sub(a, .) is the identity, both sides matched with the filled values) is proved for the restricted "
-    "class only: top-level literals, `*`, one `**/` (anything double-star-free after it) or a final `**`, first occurrences of fully bound variables (nested "
-    "values allowed), well separated fillings on both sides (forced: roundtrip_separator_witness, same_wildcards_witness, two_starstar_witness), regex "
-    "compiles (F12), root decision succeeds (F11), env keys distinct and not named s<n>, no {android_locale}.  NOT proved: repeated variables "
-    "(back-references), {android_locale}, variables unbound on one side (captured from the path); there the construction-based oracle checks every generated pair (expected paths and "
-    "groups are known by construction)",
-    "match_sound_partial is restricted (not forced) to environments of plain texts, first occurrences of variables, no {android_locale}",
+    "sub_roundtrip_star_partial / sub_roundtrip_backref_partial (a.sub(b, .) then b.sub(a, .) is the identity, both sides matched with the filled values) are proved for the "
+    "restricted class only: top-level literals, `*`, one `**/` (anything double-star-free after it) or a final `**`, fully bound variables (nested values allowed; "
+    "since round 4 also REPEATED occurrences = back-references), well separated fillings on both sides (forced: roundtrip_separator_witness, same_wildcards_witness, "
+    "two_starstar_witness), regex compiles (F12), root decision succeeds (F11), env keys distinct and not named s<n>, no {android_locale}.  NOT proved: {android_locale}, "
+    "variables unbound on one side (captured from the path), a variable repeated INSIDE an environment value; there the construction-based oracle checks every generated pair",
+    "match_sound_general_partial (all matched paths): nested values, repeated variables, fully bound or captured variables are covered; excluded: top-level {android_locale} "
+    "(forced for an unbound locale: match_sound_android_witness; with a bound locale not proved), env keys named like a wildcard group (forced) and repetitions inside a value",
+    "Matcher.__eq__ is not an equivalence (not transitive: witness); 'equal matchers behave alike' needs the same variable names on both sides (forced: matcher_eq_limits_witness)",
+    "concat: str/prefix law proved (concat_joins_paths); matching of a concatenation is not proved in general (concat neither renumbers wildcards nor re-flags repeated "
+    "variables: concat_witness), covered by the by-construction oracle for parts that define different groups",
 ]
 LEVEL_TEXT = ("Lean 4 theorems over an executable transliteration of paths/matcher.py: for ALL patterns, environments and paths, sub maps "
               "exactly the matched paths and is the expansion of the other pattern under 'captures, then the other environment' (other "
-              "env wins, remaining groups unchanged), and for simple matchers the captured groups re-assemble exactly the matched path "
-              "(match_sound); the two-matcher round trip is proved for the restricted class (literals, `*`, one `**/` or a final `**`, fully bound "
-              "variables incl. nested values; completeness + uniqueness of the backtracking matcher on well separated fillings) and beyond it established by differential + construction-based testing: "
-              "bounded-exhaustive pattern pairs (8 segment forms, <= 2/3 segments, all small fills) and seeded random pairs of the "
-              "configuration grammar, expected paths and groups known by construction; the model is tied to the Python by structural "
-              "equality of the generated regex AST and by equal results on every case")
+              "env wins, remaining groups unchanged); the captured groups re-assemble exactly the matched path (match_sound) for nested values, repeated "
+              "variables and captured variables; the two-matcher round trip is proved for the restricted class (literals, `*`, one `**/` or a final `**`, fully bound "
+              "variables incl. nested values and repetitions; completeness + uniqueness of the backtracking matcher on well separated fillings); Matcher/Pattern equality, "
+              "concat and the regex cache (explicit state: derived matchers never inherit it) have theorems; beyond the proved classes: differential + construction-based testing: "
+              "bounded-exhaustive pattern pairs (8 segment forms, <= 2/3 segments, all small fills), seeded random pairs of the "
+              "configuration grammar, operation sequences (warm-up, then with_env / re-rooted copy / concat, compared with a fresh matcher), file pairing by ProjectFiles on a real tree; "
+              "the model is tied to the Python by structural equality of the generated regex AST and by equal results on every case")
 LEVEL_NOTE = ("the round-trip theorem is proved for a restricted class only (see partial); trusted: Lean kernel, hand-written model validated by correspondence, "
               "re.escape/re.compile identity checked structurally on every run; hypotheses with negation witnesses: "
-              "SameWildcards, WellSeparated, FirstNodeOK (F11), DistinctGroupNames (F12)")
+              "SameWildcards, WellSeparated, FirstNodeOK (F11), DistinctGroupNames (F12), no top-level {android_locale} with an unbound locale (match_sound)")
 TECHNIQUE = "Lean 4 proof over an executable model of paths/matcher.py + differential correspondence (incl. structural equality of the generated regex) + construction-based oracle"
 TRUSTED = [
     "hand-written model CLModel/Paths/Matcher.lean of PatternParser, Pattern/Node.expand/regex_pattern, Matcher.match/sub/prefix (tied by the pm.* correspondence)",
     "`re.escape(s)` followed by `re.compile` = the literal characters of s; group names <-> group numbers (both checked on every run: the model's regex AST must equal the parse of the real `_cached_re.pattern`)",
     "regexes, regex fragments (f-string parts of regex_pattern) and the Android tables are regenerated from /repo by the translator on every run",
+    "hand-written model CLModel/Paths/MatcherX.lean of Matcher.__eq__/__ne__, Pattern/node __eq__, concat, Matcher(matcher, env, root), expand(), the encoding branches and the regex cache as state (tied by the c12.eq / c12.concat / c12.rebuild / c12.expand / c12.enc / c12.seq streams)",
 ]
 ASSUMPTIONS = [
     "variable names are ASCII identifiers; Matcher.encoding is None; root is an absolute normalised path (os.path.abspath is outside the model)",
@@ -386,6 +404,9 @@ def replay(payload):
         if v.get("op") == "sequence":
             res.append(replay_sequence(i))
             continue
+        if v.get("op") == "derive":
+            res.append(replay_derive(i))
+            continue
         if v.get("op") == "foreign":
             rs = pool.pmap("impl.matcher", "impl_sub", [[{"a": i["a"], "b": i["b"], "paths": i["paths"]}]], timeout=10.0)[0]
             raw = rs["r"]["raw"] if "r" in rs else None
@@ -626,4 +647,840 @@ def run(ctx):
     for cls in sorted({p[0] for p in pr}):
         run_pairs(ctx, out, [p[1:] for p in pr if p[0] == cls], cls, want_sub=True, want_neg=False)
     run_separator_probe(ctx, out)
+    run_round4(ctx, out, ctx.rng("c11", "r4"))
+    run_pairing(ctx, out, ctx.n(700, 6000), ctx.rng("c11", "pairing"))
     return out
+
+
+# ====================================================================== round 4: ==, concat, expand(), Matcher(matcher, env, root),
+# encoding branches, PatternParser.parse on objects.  Expected values by construction (pathgen.Side) or from os.path (stdlib).
+import os as _os
+import posixpath as _pp
+
+from impl import mozgen as MG
+
+REL_ROOTS = ["rel", "rel/dir", ".", "..", "a/../b", "x//y/", "./q"]
+
+
+def raw_margs(spec, cwd):
+    """`<cwd> <root|-> <pattern> <n> (k v)*` : the root exactly as the caller gives it"""
+    env = spec.get("env") or []
+    s = "%s %s %s %d" % (C.enc(cwd), "-" if spec.get("root") is None else C.enc(spec["root"]), C.enc(spec["pat"]), len(env))
+    for k, v in env:
+        s += " %s %s" % (C.enc(k), C.enc(v))
+    return s
+
+
+def raw_spec(sd, root=None, paths=()):
+    """spec of a Side with its with_env layer folded into the constructor environment and an explicit raw root"""
+    return {"pat": sd.pattern(), "env": sorted(sd.full_env().items()), "root": root, "with": None, "paths": list(paths)}
+
+
+def abs_root(cwd, root):
+    """what Matcher stores for a root, by the standard library: abspath without its trailing '/' (the Side adds it)"""
+    return _pp.normpath(_pp.join(cwd, root))
+
+
+def plain_side(rng, maxseg=3):
+    """a wildcard-free side of 1..maxseg segments, every variable bound (acyclic)"""
+    sd = G.Side()
+    names = G.VARNAMES + ["locale"]
+    vars_avail = rng.sample(names, rng.randrange(0, 4))
+    sd.segs = [G._plain_atoms(rng, vars_avail, set(), True) for _ in range(rng.randrange(1, maxseg + 1))]
+    sd.env = G.gen_env(rng, sd, names)
+    return sd
+
+
+def defined_names(sd):
+    """group names a side defines: wildcards, variables reachable directly or through values, android_locale (+ locale chain)"""
+    direct, indirect = G.reachable_vars(sd)
+    names = set(direct) | set(indirect)
+    for a in sd.atoms():
+        if a[0] in "sd":
+            names.add("s%d" % (a[1] + 1))
+        elif a[0] == "a":
+            names.add("android_locale")
+    return names
+
+
+def trunc_expand(value, env, gone=()):
+    """Pattern.expand(env) without raise_missing: the children up to the first one that needs an unbound name"""
+    import re
+    out, i = "", 0
+    for m in re.finditer(r"\{ *(\w+) *\}", value):
+        out += value[i:m.start()]
+        i = m.end()
+        name = m.group(1)
+        try:
+            assert name in env and name not in gone
+            out += G.ref_expand(env[name], env, gone + (name,))
+        except (AssertionError, ValueError):
+            return out
+    return out + value[i:]
+
+
+_LOCALE_RE = _re.compile(r"[a-z]{2,3}(-[A-Za-z0-9]{2,8})*\Z")
+
+
+def locale_ok(sd):
+    """the reference for {android_locale} speaks about locale CODES: the value of `locale` (if any is needed) must be one"""
+    env = sd.full_env()
+    if "locale" not in env:
+        return True
+    try:
+        return bool(_LOCALE_RE.match(G.ref_expand(env["locale"], env, ())))
+    except (AssertionError, ValueError):
+        return False
+
+
+def _exc_name(raw):
+    return raw.get("exc") if isinstance(raw, dict) and "exc" in raw else None
+
+
+def run_expand(ctx, out, n, rng):
+    """module function expand(root, path, env): wildcard-free paths, absolute and relative roots under several
+    working directories, fully bound and with one binding removed (truncation at the first missing variable)"""
+    jobs = []
+    for _ in range(n):
+        sd = plain_side(rng)
+        cwd = rng.choice(MG.CWDS)
+        r = rng.random()
+        root = None if r < 0.15 else (rng.choice(G.ROOTS[:6]) if r < 0.6 else rng.choice(REL_ROOTS))
+        env = dict(sd.env)
+        dropped = None
+        if env and rng.random() < 0.25:
+            dropped = rng.choice(sorted(env))
+            del env[dropped]
+        jobs.append((sd, cwd, root, env, dropped))
+    cases = [{"cwd": cwd, "root": root, "pat": sd.pattern(), "env": sorted(env.items())} for sd, cwd, root, env, _ in jobs]
+    res = pool.pmap("impl.matcher", "impl_expand", [[c] for c in cases], timeout=5.0)
+    lines = ["c12.expand " + raw_margs(c, c["cwd"]) for c in cases]
+    model = C.run_driver_parallel(lines) if ctx.model_ok else [None] * len(lines)
+    for (sd, cwd, root, env, dropped), case, r, mo in zip(jobs, cases, res, model):
+        out.evaluations += 1
+        inp = dict(case)
+        inp["class"] = "expand"
+        if "r" not in r:
+            out.violations.append({"what": "expand: adapter failed: %s" % r.get("exc"), "input": inp, "op": "expand", "finding": None})
+            continue
+        got = r["r"]["raw"]
+        # expected by construction: atoms up to the first one that needs an unbound name
+        body, first_text, stop = "", None, False
+        for idx, a in enumerate(sd.atoms()):
+            try:
+                if a[0] == "t":
+                    t = a[1]
+                elif a[0] == "v":
+                    assert a[1] in env
+                    t = G.ref_expand(env[a[1]], env, (a[1],))
+                else:
+                    assert "locale" in env
+                    # `_get_android_locale` expands the value of locale WITHOUT raise_missing: it is cut at its first unbound variable
+                    t = G.ref_android(trunc_expand(env["locale"], env, ("android_locale",)))
+            except (AssertionError, ValueError):
+                stop = True
+                break
+            body += t
+        ats = sd.atoms()
+        # what Python sees as the first node: the literal run, or the first variable
+        first_ok = True
+        if ats and ats[0][0] == "t":
+            ft = ""
+            for b in ats:
+                if b[0] != "t":
+                    break
+                ft += b[1]
+        else:
+            try:
+                ft = sd.first_text(env) if ats else ""
+            except (AssertionError, KeyError, ValueError):
+                ft, first_ok = None, False
+        spec = {"pat": case["pat"], "env": case["env"], "root": root, "with": None}
+        if root is not None and not first_ok:
+            # F11: rooted and the first node cannot be expanded
+            if not is_exc(got):
+                out.count("expand.first-unbound-no-raise")
+            else:
+                out.violations.append({"what": "expand(%r, %r, env) raised %s" % (root, case["pat"], got["exc"]), "input": inp,
+                                       "op": "expand", "finding": finding_of_exc(got, spec)})
+            continue
+        exp = ("" if root is None or (ft or "").startswith("/") else
+               ("//" if abs_root(cwd, root) == "/" else abs_root(cwd, root) + "/")) + body
+        if got != exp:
+            out.violations.append({"what": "expand(%r, %r, env) under cwd %r = %r, expected %r" % (root, case["pat"], cwd, got, exp),
+                                   "input": inp, "op": "expand", "finding": finding_of_exc(got, spec)})
+            continue
+        if mo is not None and mo != r["r"]["canon"]:
+            out.disagreements.append({"op": "c12.expand", "input": inp, "impl": r["r"]["canon"], "model": mo})
+        out.nontrivial.add(("expand", case["pat"], root, cwd, got))
+        out.count("expand.cases")
+        out.count("expand." + ("truncated" if stop else "full") + ("" if root is None else ".rel-root" if not root.startswith("/") else ".abs-root"))
+    if jobs and len(out.samples) < 12:
+        out.samples.append({"class": "expand", "root": cases[0]["root"], "cwd": cases[0]["cwd"], "path": cases[0]["pat"],
+                            "env": cases[0]["env"], "result": res[0].get("r", {}).get("raw")})
+
+
+def run_eq(ctx, out, n, rng):
+    """Matcher.__eq__/__ne__, Pattern.__eq__/__ne__ (and the node __eq__s): pairs whose equality is known by construction"""
+    jobs = []
+    for _ in range(n):
+        a, _, fills = G.gen_pair(rng)
+        env_a = a.full_env()
+        cwd = rng.choice(MG.CWDS)
+        root_a = a.root
+        pat_a = a.pattern()
+        kind = rng.choice(["same", "same", "env-conflict", "pattern", "root", "one-empty", "extra-keys"])
+        pat_b, env_b, root_b = MG.respace(pat_a, rng), dict(env_a), root_a
+        same_pattern = True
+        if kind == "pattern":
+            mp = MG.mutate_pattern(pat_a, rng)
+            if mp is None:
+                continue
+            pat_b, same_pattern = mp, False
+        elif kind == "root":
+            root_b = rng.choice([r for r in [None, "/r", "/r/x", "/other"] if r != root_a])
+            same_pattern = False
+        elif kind == "same" and root_a is not None and root_a != "/":
+            root_b = rng.choice([root_a, root_a + "/", root_a + "/.", root_a + "/zz/.."])   # same directory, written differently
+        conflict = False
+        if kind == "env-conflict" and env_a:
+            k = rng.choice(sorted(env_a))
+            env_b[k] = env_a[k] + "#"
+            conflict = True
+        elif kind == "one-empty":
+            if rng.random() < 0.5:
+                env_b = {}
+            else:
+                env_a = {}
+        elif kind == "extra-keys":
+            for k in sorted(env_b):
+                if rng.random() < 0.4:
+                    del env_b[k]
+            env_b["extra_%d" % rng.randrange(3)] = "e"
+        if kind == "same" and rng.random() < 0.5:
+            env_b = {k: MG.respace(v, rng) for k, v in env_b.items()}
+        exp_eq = same_pattern and not (env_a and env_b and conflict and any(k in env_b for k in env_a))
+        fl = a.normalize_fills(dict(fills))
+        a2 = clone(a)
+        a2.env, a2.withenv = env_a, None
+        try:
+            path = a2.fill(fl)
+        except (AssertionError, KeyError, ValueError):
+            path = "x"
+        sa = {"pat": pat_a, "env": sorted(env_a.items()), "root": root_a, "with": None}
+        sb = {"pat": pat_b, "env": sorted(env_b.items()), "root": root_b, "with": None}
+        jobs.append((sa, sb, cwd, kind, same_pattern, exp_eq, [path, path + "x"]))
+    cases = [{"a": sa, "b": sb, "cwd": cwd, "paths": ps} for sa, sb, cwd, _, _, _, ps in jobs]
+    res = pool.pmap("impl.matcher", "impl_eq", [[c] for c in cases], timeout=5.0)
+    lines = ["c12.eq " + raw_margs(c["a"], c["cwd"]) + " " + raw_margs(c["b"], c["cwd"]) for c in cases]
+    model = C.run_driver_parallel(lines) if ctx.model_ok else [None] * len(lines)
+    for (sa, sb, cwd, kind, same_pattern, exp_eq, ps), case, r, mo in zip(jobs, cases, res, model):
+        out.evaluations += 1
+        inp = dict(case)
+        inp["class"] = "eq." + kind
+        if "r" not in r or is_exc(r["r"].get("raw")):
+            out.violations.append({"what": "==: adapter failed: %s" % (r.get("exc") or r["r"].get("raw"),), "input": inp, "op": "eq",
+                                   "finding": None})
+            continue
+        eq, ne, eq_ba, peq, pne = r["r"]["raw"]
+        bad = []
+        if eq != exp_eq:
+            bad.append("a == b is %r, expected %r (%s)" % (eq, exp_eq, kind))
+        if ne != (not eq):
+            bad.append("a != b is %r although a == b is %r" % (ne, eq))
+        if eq_ba != eq:
+            bad.append("a == b is %r but b == a is %r" % (eq, eq_ba))
+        if peq != same_pattern or pne != (not peq):
+            bad.append("pattern == is %r / != is %r, expected %r" % (peq, pne, same_pattern))
+        if r["r"]["extra"] != [True, True, False, True, True, False, ["NotImplementedError", "NotImplementedError"], True]:
+            bad.append("a == a, b == b, a == 'text', a != 'text', pattern == list(pattern), a == (a with an encoding), Node() methods, "
+                       "repr are %r" % (r["r"]["extra"],))
+        # node by node, against the independent statement of the pattern grammar
+        na, nb = MG.ref_nodes(sa["pat"]), MG.ref_nodes(sb["pat"])
+        exp_nodes = [x != y for x, y in zip(na, nb)]
+        if r["r"]["nodes"] != exp_nodes:
+            bad.append("node != node, position by position: %r, expected %r (nodes %r vs %r)" % (r["r"]["nodes"], exp_nodes, na, nb))
+        ra = None if sa["root"] is None else abs_root(cwd, sa["root"])
+        rb = None if sb["root"] is None else abs_root(cwd, sb["root"])
+        if peq != (na == nb and ra == rb):
+            bad.append("pattern == is %r, but the node lists are %s and the roots %r / %r" % (peq, "equal" if na == nb else "different", ra, rb))
+        # equal matchers that bind the same variables behave alike
+        if eq and [k for k, _ in sa["env"]] == [k for k, _ in sb["env"]] and r["r"]["behave"][0] != r["r"]["behave"][1]:
+            bad.append("equal matchers with the same variables behave differently: %r vs %r" % tuple(r["r"]["behave"]))
+        if bad:
+            for w in bad:
+                out.violations.append({"what": w, "input": inp, "op": "eq", "finding": None})
+            continue
+        if mo is not None and mo != r["r"]["canon"]:
+            out.disagreements.append({"op": "c12.eq", "input": inp, "impl": r["r"]["canon"], "model": mo})
+        out.nontrivial.add(("eq", sa["pat"], sb["pat"], tuple(map(tuple, sb["env"])), eq))
+        out.count("eq.%s.%s" % (kind, "equal" if eq else "unequal"))
+    if jobs and len(out.samples) < 12:
+        out.samples.append({"class": "eq", "a": cases[0]["a"], "b": cases[0]["b"], "a == b": res[0].get("r", {}).get("raw")})
+
+
+def run_concat(ctx, out, n, rng):
+    """Matcher.concat: 'one Matcher that behaves as if you joined the resulting paths' (no separator logic).  The expected
+    prefix / str / groups come from ONE side built from the atoms of both (only one of the two has wildcards and the two
+    define different group names: class concat.ok); where both define the same name the regex cannot be compiled (the
+    parsers do not know of each other) - there (class concat.shared) only prefix and str are judged"""
+    jobs = []
+    for _ in range(n):
+        cwd = rng.choice(MG.CWDS)
+        if rng.random() < 0.5:
+            a, _, fills = G.gen_pair(rng)
+            if a.segs[-1][-1][0] == "d":
+                continue
+            b = plain_side(rng)
+        else:
+            a = plain_side(rng)
+            if rng.random() < 0.3:
+                a.root = rng.choice(G.ROOTS[:6])
+            b, _, fills = G.gen_pair(rng, rooted_ok=False)
+        for sd in (a, b):
+            sd.env, sd.withenv = sd.full_env(), None
+        as_text = rng.random() < 0.4
+        env_b = {} if as_text else dict(b.env)
+        rooted_other = (not as_text) and rng.random() < 0.06
+        c = G.Side()
+        c.segs = [list(s) for s in a.segs[:-1]] + [list(a.segs[-1]) + list(b.segs[0])] + [list(s) for s in b.segs[1:]]
+        c.env = dict(a.env)
+        c.env.update(env_b)
+        c.root = a.root
+        if G.first_is_wildcard(a) and a.root is not None:
+            continue
+        bb = clone(b)
+        bb.env = env_b
+        # group names each side defines, in the merged environment
+        ca, cb = clone(a), clone(bb)
+        ca.env = cb.env = dict(c.env)
+        if not locale_ok(c):
+            continue
+        try:
+            shared = (defined_names(ca) & defined_names(cb)) or dup_groups(c.spec())
+            fl = c.normalize_fills(dict(fills))
+            pc = c.fill(fl)
+            ppre = c.fill(fl, upto_first_wildcard=True)
+            groups = c.expected_groups(fl)
+        except (AssertionError, KeyError, ValueError):
+            continue        # a variable of the text side is not bound by the other side's environment
+        sa = {"pat": a.pattern(), "env": sorted(a.env.items()), "root": a.root, "with": None}
+        other = {"kind": "T", "text": b.pattern()} if as_text else \
+            {"kind": "M", "spec": {"pat": b.pattern(), "env": sorted(env_b.items()), "root": "/r" if rooted_other else None, "with": None}}
+        muts = [pc + "x", pc[:-1]] if pc else ["x"]
+        jobs.append((sa, other, cwd, c, fl, pc, ppre, groups, bool(shared), rooted_other, bool(fl), [pc] + muts))
+    cases = [{"a": j[0], "other": j[1], "cwd": j[2], "paths": j[11]} for j in jobs]
+    res = pool.pmap("impl.matcher", "impl_concat", [[cs] for cs in cases], timeout=5.0)
+    lines = []
+    for cs in cases:
+        o = cs["other"]
+        lines.append("c12.concat " + raw_margs(cs["a"], cs["cwd"]) + " " +
+                     ("T " + C.enc(o["text"]) if o["kind"] == "T" else "M " + raw_margs(o["spec"], cs["cwd"])) + G.paths_arg(cs["paths"]))
+    model = C.run_driver_parallel(lines) if ctx.model_ok else [None] * len(lines)
+    for (sa, other, cwd, c, fl, pc, ppre, groups, shared, rooted_other, wild, paths), case, r, mo in zip(jobs, cases, res, model):
+        out.evaluations += 1
+        inp = dict(case)
+        cls = "concat." + ("rooted-other" if rooted_other else "shared" if shared else "ok")
+        inp["class"] = cls
+        if "r" not in r:
+            out.violations.append({"what": "concat: adapter failed: %s" % r.get("exc"), "input": inp, "op": "concat", "finding": None})
+            continue
+        rr = r["r"]
+        bad = []
+        if rooted_other:
+            if _exc_name(rr.get("raw")) != "ValueError":
+                bad.append("concat with a rooted matcher did not raise ValueError: %r" % (rr.get("raw", rr.get("canon")),))
+        elif "raw" in rr:
+            bad.append("concat raised %r" % (rr["raw"],))
+        else:
+            if not rr["a_unchanged"]:
+                bad.append("concat modified the pattern of the matcher it was called on")
+            if rr["prefix"] != ppre:
+                bad.append("prefix of the concatenation = %r, expected %r" % (rr["prefix"], ppre))
+            if not wild and rr["str"] != pc:
+                bad.append("str of the concatenation = %r, expected the joined expansions %r" % (rr["str"], pc))
+            if not shared:
+                got = rr["match_raw"][0]
+                if got != groups:
+                    bad.append("the concatenation matches its own filled path %r as %r, expected %r" % (pc, got, groups))
+                toks = c.tokens()
+                for p, g in zip(paths[1:], rr["match_raw"][1:]):
+                    if is_exc(g) or (g is not None) != G.ref_match(toks, p):
+                        bad.append("the concatenation on %r: %r, but the joined pattern %s it" % (
+                            p, g, "covers" if G.ref_match(toks, p) else "does not cover"))
+        if bad:
+            spec = {"pat": sa["pat"], "env": sa["env"], "root": sa["root"], "with": None}
+            for w in bad:
+                out.violations.append({"what": w, "input": inp, "op": "concat", "finding": None})
+            continue
+        if mo is not None and mo != rr["canon"]:
+            out.disagreements.append({"op": "c12.concat", "input": inp, "impl": rr["canon"], "model": mo})
+        if not rooted_other:
+            out.nontrivial.add(("concat", sa["pat"], json_key(other), pc))
+        out.count(cls + (".wild" if wild else ".plain"))
+    for cs, r in zip(cases, res):
+        if len(out.samples) < 12 and "r" in r and "str" in r["r"] and isinstance(r["r"]["str"], str):
+            out.samples.append({"class": "concat", "a": cs["a"]["pat"], "other": cs["other"], "str": r["r"]["str"], "prefix": r["r"]["prefix"]})
+            break
+
+
+def json_key(o):
+    import json
+    return json.dumps(o, sort_keys=True)
+
+
+def run_rebuild(ctx, out, n, rng):
+    """Matcher(other_matcher, env, root): the copy takes the new root (absolute or relative to the working directory)
+    and the new bindings on top of the old ones"""
+    jobs = []
+    for _ in range(n):
+        a, _, fills = G.gen_pair(rng)
+        a.env, a.withenv = a.full_env(), None
+        if G.first_is_wildcard(a):
+            continue
+        cwd = rng.choice(MG.CWDS)
+        r = rng.random()
+        new_root = None if r < 0.25 else (rng.choice(G.ROOTS[:6]) if r < 0.6 else rng.choice(REL_ROOTS))
+        over = {}
+        for k in sorted(a.env):
+            if "{" not in a.env[k] and k != "locale" and k != "B" and rng.random() < 0.3:
+                feeds = "locale" in a.env and "{" in a.env["locale"]
+                over[k] = rng.choice(["fr", "nl", "ast"] if feeds else ["other", "n.w", "zz-1"])
+        e = clone(a)
+        e.env.update(over)
+        if new_root is not None:
+            e.root = abs_root(cwd, new_root)
+        if not locale_ok(e):
+            continue
+        try:
+            fl = e.normalize_fills(dict(fills))
+            pe = e.fill(fl)
+            groups = e.expected_groups(fl)
+            ppre = e.fill(fl, upto_first_wildcard=True)
+        except (AssertionError, KeyError, ValueError):
+            continue
+        sa = {"pat": a.pattern(), "env": sorted(a.env.items()), "root": a.root, "with": None}
+        if dup_groups({"pat": sa["pat"], "env": sorted(e.env.items()), "with": None}):
+            continue
+        jobs.append((sa, cwd, new_root, sorted(over.items()), e, fl, pe, groups, ppre))
+    cases = [{"a": j[0], "cwd": j[1], "root": j[2], "env": j[3], "paths": [j[6], j[6] + "x"]} for j in jobs]
+    res = pool.pmap("impl.matcher", "impl_rebuild", [[cs] for cs in cases], timeout=5.0)
+    lines = []
+    for cs in cases:
+        s = "c12.rebuild " + raw_margs(cs["a"], cs["cwd"]) + " " + ("-" if cs["root"] is None else C.enc(cs["root"])) + " %d" % len(cs["env"])
+        for k, v in cs["env"]:
+            s += " %s %s" % (C.enc(k), C.enc(v))
+        lines.append(s + G.paths_arg(cs["paths"]))
+    model = C.run_driver_parallel(lines) if ctx.model_ok else [None] * len(lines)
+    for (sa, cwd, new_root, over, e, fl, pe, groups, ppre), case, r, mo in zip(jobs, cases, res, model):
+        out.evaluations += 1
+        inp = dict(case)
+        inp["class"] = "rebuild"
+        if "r" not in r:
+            out.violations.append({"what": "Matcher(matcher, env, root): adapter failed: %s" % r.get("exc"), "input": inp, "op": "rebuild",
+                                   "finding": None})
+            continue
+        rr = r["r"]
+        bad = []
+        if "raw" in rr:
+            bad.append("Matcher(matcher, env, root) raised %r" % (rr["raw"],))
+        else:
+            exp_root = None if e.root is None else ("//" if e.root == "/" else e.root + "/")
+            if rr["root"] != exp_root:
+                bad.append("root of the copy = %r, expected %r" % (rr["root"], exp_root))
+            if rr["prefix"] != ppre:
+                bad.append("prefix of the copy = %r, expected %r" % (rr["prefix"], ppre))
+            if rr["match_raw"][0] != groups:
+                bad.append("the copy matches its filled path %r as %r, expected %r" % (pe, rr["match_raw"][0], groups))
+            g1 = rr["match_raw"][1]
+            if is_exc(g1) or (g1 is not None) != G.ref_match(e.tokens(), pe + "x"):
+                bad.append("the copy on %r: %r" % (pe + "x", g1))
+        if bad:
+            for w in bad:
+                out.violations.append({"what": w, "input": inp, "op": "rebuild", "finding": None})
+            continue
+        if mo is not None and mo != rr["canon"]:
+            out.disagreements.append({"op": "c12.rebuild", "input": inp, "impl": rr["canon"], "model": mo})
+        out.nontrivial.add(("rebuild", sa["pat"], new_root, cwd, pe))
+        out.count("rebuild." + ("keep-root" if new_root is None else "rel-root" if not new_root.startswith("/") else "abs-root"))
+
+
+def run_enc(ctx, out, n, rng):
+    """the `encoding` branches of prefix / match / _cache_regex / sub (bytes in, bytes out): the same results as without
+    an encoding.  A group that took no part in the match (`**` without a directory) makes `match` raise AttributeError
+    (`None.decode`): counted and compared with the model, not judged (the property is stated for encoding=None)"""
+    jobs = []
+    for _ in range(n):
+        a, b, fills = G.gen_pair(rng)
+        for sd in (a, b):
+            sd.env, sd.withenv = sd.full_env(), None
+        if dup_groups(a.spec()) or dup_groups(b.spec()) or first_not_expandable(a.spec()) or first_not_expandable(b.spec()):
+            continue
+        fl = b.normalize_fills(a.normalize_fills(dict(fills)))
+        pa, pb = a.fill(fl), b.fill(fl)
+        jobs.append((a, b, fl, pa, pb))
+    cases = [{"a": raw_spec(a, a.root), "b": raw_spec(b, b.root), "cwd": "/", "paths": [pa, pa + "x"]} for a, b, fl, pa, pb in jobs]
+    res = pool.pmap("impl.matcher", "impl_enc", [[cs] for cs in cases], timeout=5.0)
+    lines = ["c12.enc " + raw_margs(cs["a"], "/") + " " + raw_margs(cs["b"], "/") + G.paths_arg(cs["paths"]) for cs in cases]
+    model = C.run_driver_parallel(lines) if ctx.model_ok else [None] * len(lines)
+    for (a, b, fl, pa, pb), case, r, mo in zip(jobs, cases, res, model):
+        out.evaluations += 1
+        inp = dict(case)
+        inp["class"] = "enc"
+        if "r" not in r or "raw" in r["r"] and isinstance(r["r"]["raw"], dict):
+            out.violations.append({"what": "encoding: adapter failed: %s" % (r.get("exc") or r["r"]["raw"],), "input": inp, "op": "enc",
+                                   "finding": None})
+            continue
+        rr = r["r"]
+        groups = a.expected_groups(fl)
+        none_group = any(v is None for v in groups.values())
+        got_m, got_s = rr["raw"][0]
+        bad = []
+        if rr["prefix"] != a.fill(fl, upto_first_wildcard=True):
+            bad.append("prefix with an encoding = %r, expected %r" % (rr["prefix"], a.fill(fl, upto_first_wildcard=True)))
+        if none_group:
+            out.count("enc.none-group." + (_exc_name(got_m) or "no-exception"))
+        else:
+            if got_m != groups:
+                bad.append("match with an encoding = %r, expected %r" % (got_m, groups))
+            if got_s != pb:
+                bad.append("a.sub(b, path) with an encoding = %r, expected %r" % (got_s, pb))
+        g1 = rr["raw"][1][0]
+        if not is_exc(g1) and (g1 is not None) != G.ref_match(a.tokens(), pa + "x"):
+            bad.append("match with an encoding on %r: %r" % (pa + "x", g1))
+        if bad:
+            for w in bad:
+                out.violations.append({"what": w, "input": inp, "op": "enc", "finding": finding_of_exc(got_m, a.spec()) or
+                                       finding_of_exc(got_s, b.spec())})
+            continue
+        if mo is not None and mo != rr["canon"]:
+            out.disagreements.append({"op": "c12.enc", "input": inp, "impl": rr["canon"], "model": mo})
+        out.nontrivial.add(("enc", case["a"]["pat"], pa))
+        out.count("enc.cases")
+
+
+def run_objargs(ctx, out, n, rng):
+    """Matcher(Pattern object, env of Pattern / Matcher objects): PatternParser.parse returns the object's pattern;
+    the result must behave like the matcher built from the texts"""
+    jobs = []
+    for _ in range(n):
+        a, _, fills = G.gen_pair(rng)
+        a.env, a.withenv = a.full_env(), None
+        if dup_groups(a.spec()) or first_not_expandable(a.spec()):
+            continue
+        fl = a.normalize_fills(dict(fills))
+        jobs.append((a, fl, a.fill(fl)))
+    cases = [dict(a.spec([pa, pa + "x"]), patobj="P") for a, fl, pa in jobs]
+    res = pool.pmap("impl.matcher", "impl_objargs", [[cs] for cs in cases], timeout=5.0)
+    lines = []
+    for cs in cases:
+        lines.append("pm.info " + G.margs(cs))
+        lines.append("pm.match " + G.margs(cs) + G.paths_arg(cs["paths"]))
+    model = C.run_driver_parallel(lines) if ctx.model_ok else [None] * len(lines)
+    for idx, ((a, fl, pa), case, r) in enumerate(zip(jobs, cases, res)):
+        out.evaluations += 1
+        inp = dict(case)
+        inp["class"] = "objargs"
+        if "r" not in r:
+            out.violations.append({"what": "Matcher(objects): adapter failed: %s %s" % (r.get("exc"), r.get("msg")), "input": inp,
+                                   "op": "objargs", "finding": None})
+            continue
+        rr = r["r"]
+        bad = []
+        if rr["match_raw"][0] != a.expected_groups(fl):
+            bad.append("Matcher(Pattern object, object env).match(%r) = %r, expected %r" % (pa, rr["match_raw"][0], a.expected_groups(fl)))
+        if rr["prefix"] != a.fill(fl, upto_first_wildcard=True):
+            bad.append("its prefix = %r, expected %r" % (rr["prefix"], a.fill(fl, upto_first_wildcard=True)))
+        if bad:
+            for w in bad:
+                out.violations.append({"what": w, "input": inp, "op": "objargs", "finding": finding_of_exc(rr["match_raw"][0], a.spec())})
+            continue
+        for nm, im, mm in (("info", rr["info"], model[2 * idx]), ("match", rr["matches"], model[2 * idx + 1])):
+            if mm is not None and im != mm:
+                out.disagreements.append({"op": "pm.%s(objects)" % nm, "input": inp, "impl": im, "model": mm})
+                break
+        out.nontrivial.add(("objargs", case["pat"], pa))
+        out.count("objargs.cases")
+
+
+def run_round4(ctx, out, rng, scale=1.0):
+    k = lambda q, t: max(1, int(ctx.n(q, t) * scale))
+    run_eq(ctx, out, k(500, 5000), rng)
+    run_concat(ctx, out, k(500, 5000), rng)
+    run_expand(ctx, out, k(500, 5000), rng)
+    run_rebuild(ctx, out, k(300, 3000), rng)
+    run_enc(ctx, out, k(300, 3000), rng)
+    run_objargs(ctx, out, k(200, 2000), rng)
+    run_derive(ctx, out, k(900, 9000), rng)
+
+
+# ---------------------------------------------------------------------- derived matchers after a warm-up (the regex cache is state)
+def _steps_arg(steps, cwd):
+    s = " %d" % len(steps)
+    for st in steps:
+        if st["op"] == "E":
+            s += " E %s %d" % ("-" if st["root"] is None else C.enc(st["root"]), len(st["env"]))
+            for k, v in st["env"]:
+                s += " %s %s" % (C.enc(k), C.enc(v))
+        elif st["op"] == "CT":
+            s += " CT " + C.enc(st["text"])
+        else:
+            s += " CM " + raw_margs(st["spec"], cwd)
+    return s
+
+
+def gen_derivation(rng):
+    """(source side a, other side b, fills, steps, expected side of the derived matcher, raw root of it, kind)"""
+    for _ in range(40):
+        a, b, fills = G.gen_pair(rng)
+        for sd in (a, b):
+            sd.env, sd.withenv = sd.full_env(), None
+        if dup_groups(a.spec()) or dup_groups(b.spec()) or first_not_expandable(a.spec()) or first_not_expandable(b.spec()):
+            continue
+        if G.first_is_wildcard(a):
+            continue
+        cwd = rng.choice(MG.CWDS)
+        kind = rng.choice(["with_env", "root", "both", "concat", "concat+with_env", "with_env+root", "root+concat"])
+        e = clone(a)
+        raw_root = a.root
+        steps = []
+
+        def overlay():
+            over = {}
+            feeds = "locale" in e.env and "{" in e.env["locale"]
+            for k in sorted(e.env):
+                if "{" not in e.env[k] and k not in ("locale", "B") and rng.random() < 0.5:
+                    over[k] = rng.choice(["fr", "nl", "ast"] if feeds else ["other", "n.w", "zz-1"])
+            if "locale" in e.env and "{" not in e.env["locale"] and rng.random() < 0.5:
+                over["locale"] = rng.choice([x for x in G.LOCALES if x != e.env["locale"]])
+            return over
+
+        def step_env(with_root, with_env):
+            nonlocal raw_root
+            over = overlay() if with_env else {}
+            root = None
+            if with_root:
+                root = rng.choice(G.ROOTS[:6] + REL_ROOTS)
+                raw_root = root
+                e.root = abs_root(cwd, root)
+            e.env.update(over)
+            steps.append({"op": "E", "root": root, "env": sorted(over.items())})
+
+        def step_concat():
+            if e.segs[-1][-1][0] == "d":
+                return False
+            t = plain_side(rng, 2)
+            as_text = rng.random() < 0.5
+            env_t = {} if as_text else dict(t.env)
+            e.segs = [list(s) for s in e.segs[:-1]] + [list(e.segs[-1]) + list(t.segs[0])] + [list(s) for s in t.segs[1:]]
+            e.env.update(env_t)
+            steps.append({"op": "CT", "text": t.pattern()} if as_text else
+                         {"op": "CM", "spec": {"pat": t.pattern(), "env": sorted(env_t.items()), "root": None, "with": None}})
+            return True
+        ok = True
+        for part in kind.split("+"):
+            if part == "with_env":
+                step_env(False, True)
+            elif part == "root":
+                step_env(True, False)
+            elif part == "both":
+                step_env(True, True)
+            else:
+                ok = ok and step_concat()
+        if not ok or not locale_ok(e):
+            continue
+        try:
+            fl = e.normalize_fills(b.normalize_fills(a.normalize_fills(dict(fills))))
+            warm, pe, pb = a.fill(fl), e.fill(fl), b.fill(fl)
+            groups = e.expected_groups(fl)
+            ppre = e.fill(fl, upto_first_wildcard=True)
+        except (AssertionError, KeyError, ValueError):
+            continue
+        fresh = {"pat": e.pattern(), "env": sorted(e.env.items()), "root": raw_root, "with": None}
+        if dup_groups(fresh) or first_not_expandable(fresh):
+            continue
+        # names the concatenated parts define must differ (the parsers do not know of each other)
+        if "concat" in kind:
+            names = []
+            for m in _TOK.finditer(e.pattern()):
+                if m.group(0) != "*" and m.group(1) is not None:
+                    names.append(m.group(1))
+            if len(names) != len(set(names)):
+                continue
+        return a, b, fl, steps, e, fresh, kind, cwd, warm, pe, pb, groups, ppre
+    return None
+
+
+def run_derive(ctx, out, n, rng, cls="derive"):
+    jobs = [j for j in (gen_derivation(rng) for _ in range(n)) if j is not None]
+    cases = []
+    for a, b, fl, steps, e, fresh, kind, cwd, warm, pe, pb, groups, ppre in jobs:
+        cases.append({"a": raw_spec(a, a.root), "b": raw_spec(b, b.root), "cwd": cwd, "warm": warm, "steps": steps,
+                      "paths": [pe, warm, pe + "x"], "fresh": fresh})
+    res = pool.pmap("impl.matcher", "impl_derive", [[c] for c in cases], timeout=5.0)
+    lines = ["c12.seq " + raw_margs(c["a"], c["cwd"]) + " " + raw_margs(c["b"], c["cwd"]) + " " + C.enc(c["warm"]) +
+             _steps_arg(c["steps"], c["cwd"]) + G.paths_arg(c["paths"]) for c in cases]
+    model = C.run_driver_parallel(lines) if ctx.model_ok else [None] * len(lines)
+    for (a, b, fl, steps, e, fresh, kind, cwd, warm, pe, pb, groups, ppre), case, r, mo in zip(jobs, cases, res, model):
+        out.evaluations += 1
+        inp = dict(case)
+        inp["class"] = cls + "." + kind
+        if "r" not in r:
+            out.violations.append({"what": "derived matcher: adapter failed: %s %s" % (r.get("exc"), r.get("msg")), "input": inp,
+                                   "op": "derive", "finding": None})
+            continue
+        rr = r["r"]
+        bad = []
+        how = "after the source matched %r, derived by %s" % (warm, kind)
+        if "derive_exc" in rr:
+            bad.append("%s: deriving raised %r" % (how, rr["derive_exc"]))
+        else:
+            fr = rr["fresh"]
+            if rr["a.match.warm"] != a.expected_groups(fl) or rr["a.match.again"] != a.expected_groups(fl):
+                bad.append("the source matcher on its own path: %r, later %r, expected %r" % (rr["a.match.warm"], rr["a.match.again"],
+                                                                                            a.expected_groups(fl)))
+            if rr["matches"][0] != groups:
+                bad.append("%s: the derived matcher matches its own filled path %r as %r, expected %r" % (how, pe, rr["matches"][0], groups))
+            if rr["prefix"] != ppre:
+                bad.append("%s: prefix %r, expected %r" % (how, rr["prefix"], ppre))
+            if rr["sub"] != pb:
+                bad.append("%s: derived.sub(b, %r) = %r, expected %r" % (how, pe, rr["sub"], pb))
+            elif rr.get("back") != pe:
+                bad.append("%s: b.sub(derived, %r) = %r, expected %r" % (how, pb, rr.get("back"), pe))
+            for p, g, f in zip(case["paths"], rr["matches"], fr["matches"]):
+                if g != f:
+                    bad.append("%s: derived.match(%r) = %r, a matcher built afresh from the same pattern, variables and root gives %r"
+                               % (how, p, g, f))
+            if rr["prefix"] != fr["prefix"] or rr["sub"] != fr["sub"]:
+                bad.append("%s: prefix / sub %r / %r, a matcher built afresh gives %r / %r" % (how, rr["prefix"], rr["sub"], fr["prefix"],
+                                                                                            fr["sub"]))
+        if bad:
+            for w in bad[:3]:
+                out.violations.append({"what": w, "input": inp, "op": "derive",
+                                       "finding": finding_of_exc(rr.get("matches", [None])[0] if "matches" in rr else None, fresh)})
+            out.count(cls + ".violations")
+            continue
+        if mo is not None and mo != rr["canon"]:
+            out.disagreements.append({"op": "c12.seq", "input": inp, "impl": rr["canon"], "model": mo})
+        out.nontrivial.add(("derive", case["a"]["pat"], json_key(steps), pe))
+        out.count("%s.%s" % (cls, kind))
+    for case, r in zip(cases, res):
+        if len(out.samples) < 12 and "r" in r and "matches" in r["r"]:
+            out.samples.append({"class": cls, "source": case["a"]["pat"], "warm-up path": case["warm"], "steps": case["steps"],
+                                "derived matches": case["paths"][0], "groups": r["r"]["matches"][0]})
+            break
+
+
+def replay_derive(i):
+    case = {k: i[k] for k in ("a", "b", "cwd", "warm", "steps", "paths", "fresh")}
+    r = pool.pmap("impl.matcher", "impl_derive", [[case]], timeout=10.0)[0]
+    if "r" not in r or "fresh" not in r["r"]:
+        return {"input": i, "result": r, "violates": True}
+    rr = r["r"]
+    bad = rr["matches"] != rr["fresh"]["matches"] or rr["prefix"] != rr["fresh"]["prefix"] or rr["sub"] != rr["fresh"]["sub"]
+    return {"input": i, "derived": rr["matches"], "fresh": rr["fresh"]["matches"], "violates": bool(bad)}
+
+
+# ---------------------------------------------------------------------- file pairing on a real tree (paths/files.py)
+def run_pairing(ctx, out, n, rng):
+    """the sentence of the property about files: a reference pattern and an l10n pattern with the same wildcards, files on
+    both sides obtained by filling the wildcards (one filling present on both sides, one only in the reference, one only in
+    the localization).  ProjectFiles must pair them by the filling: every filling once, a file present on both sides never
+    as two entries (missing and obsolete at once); lookups by either path give the same pair."""
+    jobs = []
+    for _ in range(n):
+        a, b, fills = G.gen_pair(rng, rooted_ok=False)          # a = reference side, b = l10n side
+        if not fills or G.first_is_wildcard(a) or G.first_is_wildcard(b):
+            continue
+        env = b.full_env()
+        env.update(a.full_env())
+        locale = env.get("locale", "de")
+        if not isinstance(locale, str) or "{" in locale:
+            continue
+        env["locale"] = locale
+        for sd in (a, b):
+            sd.env, sd.withenv, sd.root = dict(env), None, None
+        if any(sp for sp in (a.spec(), b.spec()) if dup_groups(sp) or first_not_expandable(dict(sp, root="/t"))):
+            continue
+        if not locale_ok(a):
+            continue
+        # three fillings: one wildcard gets a different value (a star: other text; `**/`: one more directory; final `**`: other text)
+        kinds = {}
+        for sd in (a, b):
+            ats = sd.atoms()
+            for idx, at in enumerate(ats):
+                if at[0] in "sd":
+                    kinds[at[1]] = "t" if (at[0] == "d" and idx == len(ats) - 1) else at[0]
+        k0 = None
+        for k in sorted(fills):
+            if not (kinds.get(k) == "s" and fills[k] == "" and k - 1 in fills and kinds.get(k - 1) == "s"):
+                k0 = k          # (not the second of two adjacent stars: greedy matching leaves it empty)
+                break
+        if k0 is None:
+            continue
+        variants = []
+        for tag in ("both", "ref", "loc"):
+            fl = dict(fills)
+            if tag != "both":
+                fl[k0] = (tag + "/" + fills[k0]) if kinds[k0] == "d" else fills[k0] + tag
+            variants.append((tag, b.normalize_fills(a.normalize_fills(fl))))
+        try:
+            paths = [(tag, a.fill(fl), b.fill(fl)) for tag, fl in variants]
+        except (AssertionError, KeyError, ValueError):
+            continue
+        allp = [p for _, pa, pb in paths for p in (pa, pb)]
+        if len(set(allp)) != len(allp) or any(p.startswith("/") or "//" in p or p.endswith("/") or p == "" or "\n" in p or
+                                               any(seg in ("..", ".") for seg in p.split("/")) for p in allp):
+            continue
+        # a file must not be a directory of another one
+        if any(x != y and y.startswith(x + "/") for x in allp for y in allp):
+            continue
+        # every path is covered by its own side only as the by-construction filling says: the glob reference decides overlaps
+        ta, tb = a.tokens(), b.tokens()
+        if any(G.ref_match(ta, pb) or G.ref_match(tb, pa) for _, pa, pb in paths):
+            continue
+        files = [paths[0][1], paths[0][2], paths[1][1], paths[2][2]]
+        exp = sorted([[paths[0][2], paths[0][1]], [paths[1][2], paths[1][1]], [paths[2][2], paths[2][1]]])
+        jobs.append((a, b, env, locale, files, exp, paths))
+    cases = [{"ref": a.pattern(), "l10n": b.pattern(), "env": sorted(env.items()), "locale": loc, "files": files}
+             for a, b, env, loc, files, exp, paths in jobs]
+    res = pool.pmap("impl.matcher", "impl_pairing", [[c] for c in cases], timeout=10.0)
+    lines = []
+    for (a, b, env, loc, files, exp, paths), c in zip(jobs, cases):
+        sa = {"pat": c["ref"], "env": c["env"], "root": None, "with": None}
+        sb = {"pat": c["l10n"], "env": c["env"], "root": None, "with": None}
+        lines.append("pm.sub " + G.margs(sa) + " " + G.margs(sb) + G.paths_arg([p[1] for p in paths]))
+    model = C.run_driver_parallel(lines) if ctx.model_ok else [None] * len(lines)
+    for (a, b, env, loc, files, exp, paths), case, r, mo in zip(jobs, cases, res, model):
+        out.evaluations += 1
+        inp = dict(case)
+        inp["class"] = "pairing"
+        if "r" not in r:
+            out.violations.append({"what": "ProjectFiles on a one-rule project raised %s %s" % (r.get("exc"), r.get("msg")), "input": inp,
+                                   "op": "pairing", "finding": None})
+            continue
+        rr = r["r"]
+        bad = []
+        if rr["listed"] != exp:
+            both = paths[0]
+            extra = ""
+            got_l = [x[0] for x in rr["listed"]]
+            if got_l.count(both[2]) != 1 or [both[2], both[1]] not in rr["listed"]:
+                extra = " (the file present on both sides is not one entry with both paths)"
+            bad.append("ProjectFiles lists %r, expected the pairs by filling %r%s" % (rr["listed"], exp, extra))
+        exp_look = [[paths[0][2], paths[0][1]], [paths[0][2], paths[0][1]], [paths[1][2], paths[1][1]], [paths[2][2], paths[2][1]]]
+        if rr["lookups"] != exp_look:
+            bad.append("ProjectFiles.match of %r gives %r, expected %r" % (files, rr["lookups"], exp_look))
+        if bad:
+            for w in bad[:2]:
+                out.violations.append({"what": w, "input": inp, "op": "pairing", "finding": None})
+            continue
+        # the model's sub maps each reference path to the l10n path ProjectFiles paired it with, and back
+        canon = " | ".join(C.enc(pb) + " " + C.enc(pa) for _, pa, pb in paths)
+        if mo is not None and mo != canon:
+            out.disagreements.append({"op": "pm.sub(pairing)", "input": inp, "impl": canon, "model": mo})
+        out.nontrivial.add(("pairing", case["ref"], case["l10n"], tuple(files)))
+        out.count("pairing.cases")
+    if jobs and len(out.samples) < 12:
+        out.samples.append({"class": "pairing", "reference": cases[0]["ref"], "l10n": cases[0]["l10n"], "files": cases[0]["files"],
+                            "pairs": res[0].get("r", {}).get("listed")})
